@@ -276,6 +276,13 @@ def str_index(s, i):
     return Spec([FAIL], "str")
 
 
+def str_index_then_len(s, i):
+    """`(s[i]).len()`: the length of the i-th character as a string (1 character, 1-4 UTF-8 bytes)."""
+    if 0 <= i < len(s):
+        return str_len(s[i])
+    return Spec([FAIL], "int")
+
+
 def str_substring(s, a, b):
     """[a, b); domain 0 <= a <= b <= len."""
     def f(as_bytes):
